@@ -84,6 +84,9 @@ int main(int argc, char** argv) {
             for (unsigned k = 0; k < c.N; k++) { Zd[k] = cd(std::fabs(std::sin(1.3 * k + v)) + 0.1, std::cos(0.7 * k * (v + 1))); Z[k] = impedance_t((float)Zd[k].real(), (float)Zd[k].imag()); Zd[k] = cd(Z[k].real(), Z[k].imag()); }
             rig.set_z(Z);
             for (unsigned b = 0; b < c.nb; b++) { std::vector<float> p(c.n); for (unsigned x = 0; x < c.n; x++) { p[x] = 0.2f + std::fabs(std::sin(0.9f * x * (b + 1) + v)); train[c.buckets[b] * c.spacing + x] = p[x]; } rig.set_profile(b, p); }
+            // the same object may have served other requests before (the spectrum for another set of profiles, with or without cut-off): the wake
+            // of the profiles set NOW is what the statement defines
+            if (v >= 1) rig.f->updateCSR(v == 1 ? 0.f : 3e11f);
             rig.f->wakePotential();
             auto ref = ref_wake(train, Zd, c.N, half);
             const auto& W = rig.f->getWakePotentials(); double mag = 0; for (double r : ref) mag = std::max(mag, std::fabs(r));
